@@ -49,6 +49,7 @@ type Job struct {
 	EventNames []string    `json:"event_names"`
 	Operations [][2]string `json:"operations"` // (constant name, value)
 	Out        string      `json:"out"`
+	SkipUntil  int         `json:"skip_until,omitempty"` // resume a shard after the cell whose run killed the process
 	Replay     *Cell       `json:"replay,omitempty"`
 	// ReplayUntil: re-execute the cells of one shard in order up to (and including) index Idx and
 	// emit only the last one: state a defect keeps at process level makes a run depend on the
@@ -166,7 +167,14 @@ func TestBubble(t *testing.T) {
 		w.Write(b)
 		w.WriteByte('\n')
 	}
+	started := func(idx int, c Cell) {
+		b, _ := json.Marshal(map[string]any{"started": idx, "cell": c})
+		w.Write(b)
+		w.WriteByte('\n')
+		w.Flush()
+	}
 	if job.Replay != nil {
+		started(0, *job.Replay)
 		emit(runCell(t, &job, *job.Replay))
 		return
 	}
@@ -185,6 +193,10 @@ func TestBubble(t *testing.T) {
 						if seed%2 == 1 {
 							mcap = 8
 						}
+						if idx <= job.SkipUntil {
+							continue
+						}
+						started(idx, Cell{Entry: entry, Failure: fl, Cap: cp, Consumer: cons, MCap: mcap, Seed: seed})
 						r := runCell(t, &job, Cell{Entry: entry, Failure: fl, Cap: cp, Consumer: cons, MCap: mcap, Seed: seed})
 						r.Idx, r.Shard, r.NShard = idx, job.Shard, job.NShard
 						if job.ReplayUntil != nil {
